@@ -5,6 +5,7 @@ package c15race
 import (
 	"errors"
 	"fmt"
+	"os"
 	"strings"
 	"sync"
 	"testing"
@@ -70,4 +71,41 @@ func TestRaceC15(t *testing.T) {
 			}
 		}
 	}
+}
+
+// TestLongHistoryC15 (thorough tier, plain build): one static targeter drawn 2^32+6000 times; the strict rotation must
+// hold across the 2^32 boundary (a counter narrower than 64 bits wraps there and breaks it for every target count
+// that does not divide 2^32). A single deterministic history, checked on every draw.
+func TestLongHistoryC15(t *testing.T) {
+	if os.Getenv("VERIF_TIER") != "thorough" {
+		t.Skip("thorough tier only")
+	}
+	const k = 3
+	ts := make([]vegeta.Target, k)
+	for i := range ts {
+		ts[i] = vegeta.Target{Method: "GET", URL: string(rune('a' + i))}
+	}
+	tr := vegeta.NewStaticTargeter(ts...)
+	const n = uint64(1)<<32 + 6000
+	var counts [k]uint64
+	prev := -1
+	var tg vegeta.Target
+	for d := uint64(0); d < n; d++ {
+		if err := tr(&tg); err != nil {
+			t.Fatalf("draw %d: %v", d, err)
+		}
+		cur := int(tg.URL[0] - 'a')
+		if prev >= 0 && cur != (prev+1)%k {
+			t.Fatalf("LONG-HISTORY-VIOLATION rotation broken at draw #%d: target %d handed out right after target %d", d+1, cur, prev)
+		}
+		prev = cur
+		counts[cur]++
+	}
+	lo, hi := n/k, (n+k-1)/k
+	for i, c := range counts {
+		if c < lo || c > hi {
+			t.Fatalf("LONG-HISTORY-VIOLATION after %d draws target %d was used %d times (want %d..%d)", n, i, c, lo, hi)
+		}
+	}
+	fmt.Printf("LONG-HISTORY: %d draws over %d targets, counts %v\n", n, k, counts)
 }
